@@ -74,7 +74,9 @@ impl Service<()> for Svc {
 
 fn run_case(line: &str) -> String {
     let f: Vec<&str> = line.split_whitespace().collect();
-    let d: u64 = f[0].parse().unwrap();
+    // d may exceed u64 milliseconds (Duration::MAX is about 1.8e22 ms)
+    let d: u128 = f[0].parse().unwrap();
+    let d = Duration::new((d / 1000) as u64, ((d % 1000) * 1_000_000) as u32);
     let p0: u64 = f[1].parse().unwrap();
     let ti: Option<u64> = if f[2] == "-" { None } else { Some(f[2].parse().unwrap()) };
     let v: u64 = f[3][1..].parse().unwrap();
@@ -86,7 +88,7 @@ fn run_case(line: &str) -> String {
     let (out, at) = rt.block_on(async move {
         let base = Instant::now();
         let svc = Svc { ti, res, base, log: log2 };
-        let mut svc = TimeoutLayer::new(|| E::Timeout, Duration::from_millis(d)).layer(svc);
+        let mut svc = TimeoutLayer::new(|| E::Timeout, d).layer(svc);
         let fut = svc.call(()); // timer is armed here
         if p0 > 0 {
             tokio::time::sleep(Duration::from_millis(p0)).await;
